@@ -65,6 +65,7 @@ const (
 	ScopeMDURLMacro        = "md-url-macro"
 	ScopeMDEmphasisAdj     = "md-emphasis-adjacent"
 	ScopeCommentQuote      = "html-comment-quote"
+	ScopeImportMap         = "script-type-importmap"
 )
 
 // Gen generates documents.
@@ -231,7 +232,22 @@ func (g *Gen) macro(t, result string, imported bool) string {
 	if result != "" {
 		decl += " " + result
 	}
-	decl += " %}{{ p }}{% end macro %}"
+	// The body of a macro with an explicit result type is lexed in that format's
+	// context; some bodies put the parameter inside a string or an attribute.
+	body := "{{ p }}"
+	if g.R.Intn(2) == 0 {
+		switch result {
+		case "html":
+			body = g.pick("<b title=\"{{ p }}\">{{ p }}</b>", "<i class=c>{{ p }}</i>", "<a href=\"/q?x={{ p }}\">l</a>")
+		case "js":
+			body = g.pick("\"pre {{ p }} post\"", "'{{ p }}'", "[{{ p }}, \"it's\"]")
+		case "css":
+			body = g.pick("\"pre {{ p }}\"", "'{{ p }}'")
+		case "json":
+			body = g.pick("\"pre {{ p }}\"", "[{{ p }}, \"a\\\"b\"]", "{\"k\": {{ p }}}")
+		}
+	}
+	decl += " %}" + body + "{% end macro %}"
 	if imported {
 		g.libSrc = append(g.libSrc, decl)
 	} else {
@@ -652,6 +668,9 @@ func (g *Gen) scriptElement() string {
 	case k == 10: // data block: not a script for a browser
 		typ := g.pick("text/template", "text/x-handlebars-template", "application/json", "text/plain", "text/javascript; charset=utf-8")
 		return "<script type=\"" + typ + "\"><div class=\"" + g.hole(CText, "html.script.datablock") + "\">" + g.hole(CText, "html.script.datablock") + "</div>" + end
+	case k == 11 && g.R.Intn(2) == 0 && !g.avoid(ScopeImportMap):
+		g.feature(ScopeImportMap)
+		return "<script type=\"" + g.pick("importmap", "speculationrules") + "\">{\"imports\": {\"a\": \"/x/" + g.hole(CJSONS, "html.script.importmap") + "\", \"b\": \"/y/" + g.hole(CJSONS, "html.script.importmap") + ".js\"}}" + end
 	case k == 11:
 		return "<script src=\"" + g.hole(CText, "html.urlattr.whole.quoted") + "\"></script>"
 	case k == 12: // legacy comment hiding
